@@ -3,7 +3,7 @@
    `chunks` is the sequence of writes of the client (ANY bytes, ANY segmentation, closed or silent at
    ANY point); `key` the configured FZF_API_KEY ([] = none); `state`, `parse`, `ready` are oracles:
    the JSON of the getHandler, the verdict of parseSingleActionList, the action channel taking the list. *)
-From Fzf Require Import Prelude HttpSpec HttpModel HttpProofs.
+From Fzf Require Import Prelude HttpSpec HttpModel HttpProofs HttpDumpProofs.
 Open Scope Z_scope.
 
 (* No byte stream wedges or crashes the handler: it always produces an outcome (the fuel computed from the
@@ -82,6 +82,55 @@ Theorem remote_needs_key : forall a host port,
 Proof. exact remote_needs_key_proof. Qed.
 Print Assumptions remote_needs_key.
 
+(* An answered GET hands the getHandler exactly the limit and offset the request line at the start of the
+   stream asks for, and neither is negative (the request-line pattern lets no sign through and Atoi bounds
+   them by 2^63-1): no framing, segmentation or number, however large, yields anything else. *)
+Theorem get_request_params : forall key state parse ready chunks o gp,
+  handle key state parse ready chunks = Ok o -> o_get o = Some gp ->
+  spec_get_request (concat chunks) = Some gp /\
+  0 <= fst gp <= INT_MAX /\ 0 <= snd gp <= INT_MAX.
+Proof. exact get_request_params_proof. Qed.
+Print Assumptions get_request_params.
+
+(* The copy loops of Terminal.dumpStatus (the real getHandler), every access checked: with an offset that is
+   not negative no index is outside the list - whatever the list and the limit - and what is shown is the
+   window [offset, offset+limit) of the list. *)
+Theorem dump_window : forall (A : Type) (items : list A) limit offset,
+  0 <= offset -> dump_items items limit offset = Ok (spec_window items limit offset).
+Proof. exact dump_window_proof. Qed.
+Print Assumptions dump_window.
+
+(* Together: no GET request can make the status dump index outside its lists (the panic that would take
+   the whole process down); it is shown the window its request line asks for. *)
+Theorem get_dump_total : forall key state parse ready chunks o limit offset (A : Type) (items : list A),
+  handle key state parse ready chunks = Ok o -> o_get o = Some (limit, offset) ->
+  dump_items items limit offset = Ok (spec_window items limit offset) /\
+  spec_get_request (concat chunks) = Some (limit, offset).
+Proof.
+  intros key state parse ready chunks o limit offset A items H G.
+  destruct (get_request_params_proof _ _ _ _ _ _ _ H G) as (S & _ & F).
+  split; [apply dump_window_proof; exact (proj1 F)|exact S].
+Qed.
+Print Assumptions get_dump_total.
+
+(* The body of the answer to a GET is the state the getHandler returned, byte for byte (the time-out object
+   when it returned nothing); nothing in it is interpreted. *)
+Theorem get_answer_verbatim : forall key state parse ready chunks o,
+  handle key state parse ready chunks = Ok o -> o_get o <> None ->
+  (state <> [] -> o_code o = 200 /\ response_body (o_resp o) = Some (state ++ [10])) /\
+  (state = [] -> o_code o = 503 /\ response_body (o_resp o) = Some (M_TIMEOUT_JSON ++ [10])).
+Proof. exact get_answer_verbatim_proof. Qed.
+Print Assumptions get_answer_verbatim.
+
+(* A body the action parser refuses is answered 400 with the parser's message, byte for byte, and nothing
+   is executed. *)
+Theorem error_reflected : forall key state parse ready chunks o b m,
+  handle key state parse ready chunks = Ok o ->
+  pending_body key chunks = Ok (Some b) -> parse b = VError m ->
+  o_code o = 400 /\ o_actions o = None /\ response_body (o_resp o) = Some (m ++ [10]).
+Proof. exact error_reflected_proof. Qed.
+Print Assumptions error_reflected.
+
 (* FINDING (refutes "segmentation never changes the outcome"): the same bytes are executed when written at
    once and answered 400 when the first write ends inside the header block. Only the harmless direction
    holds (accept_sound). Full statement that is FALSE of the faithful model:
@@ -129,4 +178,31 @@ Proof.
   split; [vm_compute; reflexivity|]. split; [vm_compute; reflexivity|]. split; [vm_compute; reflexivity|].
   split; [eexists; split; [vm_compute; reflexivity|split; reflexivity]|].
   split; vm_compute; reflexivity.
+Qed.
+
+(* non-vacuity of the GET theorems: a GET with both parameters, the second one beyond 2^63-1 (ignored: the
+   default 0 stays), is answered; the window of a five-element list for limit 2, offset 3; the hypothesis of
+   dump_window is needed (a negative offset indexes in front of the list); a state and a parser message
+   containing '%' come back unchanged. *)
+Example c16_get_nonvacuous :
+  let parse := fun b : str => match b with [] => VEmpty | _ => VError [37;100] end in        (* "%d" *)
+  let get := [[71;69;84;32;47;63;108;105;109;105;116;61;50;38;111;102;102;115;101;116;61;     (* GET /?limit=2&offset= *)
+               49;56;52;52;54;55;52;52;48;55;51;55;48;57;53;53;49;54;49;53;                   (* 18446744073709551615 *)
+               32;72;84;84;80;47;49;46;49;13;10;13;10]] in                                    (*  HTTP/1.1, blank *)
+  let post := [[80;79;83;84;32;47;32;72;84;84;80;47;49;46;49;13;10;                           (* POST / HTTP/1.1 *)
+                67;111;110;116;101;110;116;45;76;101;110;103;116;104;58;32;49;13;10;13;10;120]] in (* Content-Length: 1, blank, x *)
+  (exists o, handle [] [49;48;48;37] parse true get = Ok o /\ o_get o = Some (2, 0) /\
+             response_body (o_resp o) = Some [49;48;48;37;10]) /\                              (* "100%" *)
+  spec_get_request (concat get) = Some (2, 0) /\
+  dump_items [10;11;12;13;14] 2 3 = Ok [13;14] /\ spec_window [10;11;12;13;14] 2 3 = [13;14] /\
+  dump_items [10;11;12] 100 (-1) = Err OutOfRange /\
+  pending_body [] post = Ok (Some [120]) /\
+  (exists o, handle [] [123;125] parse true post = Ok o /\ o_code o = 400 /\
+             response_body (o_resp o) = Some [37;100;10]).
+Proof.
+  cbv zeta.
+  split; [eexists; split; [vm_compute; reflexivity|split; vm_compute; reflexivity]|].
+  split; [vm_compute; reflexivity|]. split; [vm_compute; reflexivity|]. split; [vm_compute; reflexivity|].
+  split; [vm_compute; reflexivity|]. split; [vm_compute; reflexivity|].
+  eexists; split; [vm_compute; reflexivity|split; vm_compute; reflexivity].
 Qed.
